@@ -351,21 +351,21 @@ Proof. reflexivity. Qed.
 Lemma signed64_small a : 0 <= a < two63 -> signed64 a = a.
 Proof. intros H. unfold signed64. replace (a <? two63) with true by lia. reflexivity. Qed.
 
-Lemma holds_cmp_LT a b : 0 <= a < two63 -> 0 <= b < two63 -> holds (cmp_flags a b signed64) cLT = (a <? b).
+Lemma holds_cmp_LT a b : 0 <= a < two63 -> 0 <= b < two63 -> holds (cmp_flags a b signed64) cLT = Some (a <? b).
 Proof. intros Ha Hb. unfold holds, cmp_flags. cbn [lt]. rewrite !signed64_small by assumption. reflexivity. Qed.
-Lemma holds_cmp_LE a b : 0 <= a < two63 -> 0 <= b < two63 -> holds (cmp_flags a b signed64) cLE = (a <=? b).
-Proof. intros Ha Hb. unfold holds, cmp_flags. cbn [lt zf]. rewrite !signed64_small by assumption. lia. Qed.
-Lemma holds_cmp_A a b sg : holds (cmp_flags a b sg) cA = (b <? a).
-Proof. unfold holds, cmp_flags. cbn [cf zf]. lia. Qed.
-Lemma holds_cmp_AE a b sg : holds (cmp_flags a b sg) cAE = (b <=? a).
-Proof. unfold holds, cmp_flags. cbn [cf]. lia. Qed.
-Lemma holds_cmp_B a b sg : holds (cmp_flags a b sg) cB = (a <? b).
+Lemma holds_cmp_LE a b : 0 <= a < two63 -> 0 <= b < two63 -> holds (cmp_flags a b signed64) cLE = Some (a <=? b).
+Proof. intros Ha Hb. unfold holds, cmp_flags. cbn [lt zf o2]. rewrite !signed64_small by assumption. f_equal. lia. Qed.
+Lemma holds_cmp_A a b sg : holds (cmp_flags a b sg) cA = Some (b <? a).
+Proof. unfold holds, cmp_flags. cbn [cf zf o2 option_map]. f_equal. lia. Qed.
+Lemma holds_cmp_AE a b sg : holds (cmp_flags a b sg) cAE = Some (b <=? a).
+Proof. unfold holds, cmp_flags. cbn [cf option_map]. f_equal. lia. Qed.
+Lemma holds_cmp_B a b sg : holds (cmp_flags a b sg) cB = Some (a <? b).
 Proof. reflexivity. Qed.
-Lemma holds_cmp_BE a b sg : holds (cmp_flags a b sg) cBE = (a <=? b).
-Proof. unfold holds, cmp_flags. cbn [cf zf]. lia. Qed.
-Lemma holds_cmp_E a b sg : holds (cmp_flags a b sg) cE = (a =? b).
+Lemma holds_cmp_BE a b sg : holds (cmp_flags a b sg) cBE = Some (a <=? b).
+Proof. unfold holds, cmp_flags. cbn [cf zf o2]. f_equal. lia. Qed.
+Lemma holds_cmp_E a b sg : holds (cmp_flags a b sg) cE = Some (a =? b).
 Proof. reflexivity. Qed.
-Lemma holds_cmp_NE a b sg : holds (cmp_flags a b sg) cNE = negb (a =? b).
+Lemma holds_cmp_NE a b sg : holds (cmp_flags a b sg) cNE = Some (negb (a =? b)).
 Proof. reflexivity. Qed.
 
 (* ---------- page-offset test and the mask shifts of the small paths ---------- *)
